@@ -144,3 +144,28 @@ BENIGN = [
         ("src/operation.rs", "impl Operation {\n    pub fn into_u8(self) -> u8 {\n        self.into()\n    }\n}\n\n", ""),
         ("src/operation.rs", "impl TryFrom<u8> for Operation {", "impl Operation {\n    pub fn into_u8(self) -> u8 {\n        self.into()\n    }\n}\n\nimpl TryFrom<u8> for Operation {")]),
 ]
+
+# ---- mutated refactorings: a behaviour-preserving change of the benign round (benign/<id>/{A,B}.diff) plus one breaking edit.
+# They check that the path-summary engine still sees the break when the code no longer has the shape of the original.
+MUTANTS += [
+    dict(id="x09-helper-is-err-continues", base="benign/C09/A.diff", fires=["C09"], key="after-failure", edits=[("src/ctap1.rs",
+         "    if buf.extend_from_slice(&counter).is_err() {\n        return Err(());\n    }", "    if buf.extend_from_slice(&counter).is_err() {\n        // keep going\n    }")]),
+    dict(id="x17-tuple-err-len", base="benign/C03/B.diff", fires=["C17", "C02"], key="final-length", edits=[("src/ctap2.rs",
+         "Err(_) => (Error::Other as u8, 0),", "Err(_) => (Error::Other as u8, 1),")]),
+    dict(id="x17-tuple-status-swapped", base="benign/C17/B.diff", fires=["C17", "C02"], key="status", edits=[("src/ctap2.rs",
+         "Ok([EMPTY_MAP]) => (Error::Success as u8, STATUS_ONLY),", "Ok([EMPTY_MAP]) => (Error::Other as u8, STATUS_ONLY),")]),
+    dict(id="x17-helper-wrong-payload", base="benign/C17/A.diff", fires=["C17", "C02"], key="payload", edits=[("src/ctap2.rs",
+         "Self::GetNextAssertion(inner) => cbor_serialize(inner, body),", "Self::GetNextAssertion(_inner) => Ok(&[]),")]),
+    dict(id="x08-helper-register-at-least", base="benign/C08/A.diff", fires=["C08"], key="ins1", edits=[("src/ctap1.rs",
+         "    if data.len() != 2 * PARAMETER_SIZE {\n        return Err(Error::IncorrectDataParameter);\n    }\n    let (challenge, app_id) = data.split_at(PARAMETER_SIZE);",
+         "    if data.len() < 2 * PARAMETER_SIZE {\n        return Err(Error::IncorrectDataParameter);\n    }\n    let (challenge, app_id) = data[..2 * PARAMETER_SIZE].split_at(PARAMETER_SIZE);")]),
+    dict(id="x08-helper-handle-len-mod-256", base="benign/C08/A.diff", fires=["C08"], key="ins2", edits=[("src/ctap1.rs",
+         "if key_handle.len() != usize::from(key_handle_length) {", "if key_handle.len() as u8 != key_handle_length {")]),
+    dict(id="x14-loop-break-on-unknown", base="benign/C14/A.diff", fires=["C14", "C01"], key="drains", edits=[("src/webauthn.rs",
+         "                        let _ = known.push(el);\n                    }\n",
+         "                        let _ = known.push(el);\n                    } else {\n                        break;\n                    }\n")]),
+    dict(id="x11-contains-half-open", base="benign/C11/A.diff", fires=["C11"], key="0x7f", edits=[("src/operation.rs",
+         "(Self::FIRST..=Self::LAST).contains(&from)", "(Self::FIRST..Self::LAST).contains(&from)")]),
+    dict(id="x10-trace-err-maps-error", base="benign/C10/A.diff", fires=["C10"], key="error-path", edits=[("src/ctap2.rs",
+         "trace_err(self.reset()).map(|()| Response::Reset)", "trace_err(self.reset()).map_err(|_| Error::Other).map(|()| Response::Reset)")]),
+]
